@@ -684,6 +684,59 @@ def r5(k: Kit) -> None:
               k.loc(ie, ie.node), g.describe_path(w) if w else None)
 
 
+def r7(k: Kit) -> None:
+    """Tail truncation: an end of the byte stream we did not initiate is an
+    error for the owner, whatever else the connection is doing."""
+    from ..absint import evaluate_total, Obj, NotEvaluable
+    rep = k.rep
+    idx = k.idx
+    rep.rule('C01.R7', 'SSHConnection.connection_lost evaluated for every '
+             'combination of (exc given?, transport still attached?) with '
+             'every other field it might test universally quantified: a '
+             'transport EOF that was not initiated locally is reported as '
+             'ConnectionLost, so packets removed from the tail of the stream '
+             '(cut on a packet boundary + FIN) are not a clean close')
+    fi = k.func('connection.SSHConnection.connection_lost')
+    bad = None
+    n = 0
+    for given in (False, True):
+        for attached in (False, True):
+            def on_call(name, args, env):
+                if name == 'ConnectionLost':
+                    return Obj('ConnectionLost')
+                return Obj('x')
+            val = {'self._transport': Obj('T') if attached else None}
+            try:
+                outs = evaluate_total(
+                    idx, fi.module, fi.node.body, val,
+                    {'exc': Obj('EXC') if given else None}, on_call)
+            except NotEvaluable as exc:
+                rep.error('C01.R7', 'not-evaluable', str(exc))
+                return
+            for extra, o in outs:
+                n += 1
+                fc = o.called('self._force_close')
+                if len(fc) != 1:
+                    bad = bad or (f'_force_close called {len(fc)} times '
+                                  f'(exc given={given}, attached={attached}, '
+                                  f'{extra})')
+                    continue
+                arg = fc[0][0] if fc[0] else None
+                if given and not (isinstance(arg, Obj) and arg.tag == 'EXC'):
+                    bad = bad or 'the transport error is not passed on'
+                if not given and attached and arg is None:
+                    bad = bad or (
+                        'peer EOF with the transport still attached'
+                        + (f' and {extra}' if extra else '') +
+                        ' is reported to the owner as a clean close '
+                        '(connection_lost(None))')
+    rep.count('eval.connection_lost_states', n)
+    rep.check(bad is None, 'C01.R7', key(fi, 'unannounced EOF is an error'),
+              f'{n} states: EOF not initiated locally ⇒ ConnectionLost',
+              f'{bad}: an attacker who cuts the stream on a packet boundary '
+              'truncates the session without any error', fi.loc(fi.node))
+
+
 def run(idx, rep, tier):
     k = Kit(idx, rep)
     rep.assumptions += NOT_DECIDED
@@ -692,6 +745,7 @@ def run(idx, rep, tier):
     r3(k)
     r4(k)
     r5(k)
+    r7(k)
     # R6: prefix truncation (dropping the first encrypted packets by
     # injecting cleartext ones before keys are in effect) is only detected
     # if strict KEX is enforced: = C06.R2
